@@ -155,6 +155,13 @@ class Curve(object):
             raise Undecided("%s_n_tables is %r" % (nm, v))
         return v
 
+    def _window_size(self, mm, nm):
+        p, t = mm.lookup_var({"name": nm + "_window_size", "kind": "VarDecl", "id": None}, mm.tu)
+        v = mm.load(p, t)
+        if not isinstance(v, int) or not 0 < v < 16:
+            raise Undecided("%s_window_size is %r" % (nm, v))
+        return v
+
     def buf(self, v, n=None):
         return self.m.alloc_bytes(list(v.to_bytes(n or self.len, "big")), "num")
 
@@ -412,6 +419,26 @@ def dispatch_rows(prog, sh=None, small=False):
                         wrong.append("%s: ec_ws_scalar(%s, %d-byte scalar, seed %s) returns code %r (the same scalar is accepted for other points)" % (
                             name, which, slen, "set" if seed else "0", rc))
                         continue
+                    if which == "G" and seed == 0:
+                        # the precomputed tables cover n_tables * window_size bits: a scalar with a bit above that must take
+                        # the generic ladder - for every value of the leading byte, not only FF
+                        cover = C._n_tables(m, name) * C._window_size(m, name)
+                        for tb in ((0x01, 0x02, 0x08, 0x10, 0x80) if slen == olen else ()):
+                            k2 = bytes([tb]) + bytes([0xFF] * (slen - 1))
+                            del seen[:]
+                            rc3, q3 = C.point(A)
+                            rc3 = m.call("ec_ws_scalar", [q3, m.alloc_bytes(list(k2), "k"), slen, 0])
+                            n += 1
+                            if rc3 != 0:
+                                wrong.append("%s: G * (%02x ff.., %d bytes) returns code %r" % (name, tb, slen, rc3))
+                            elif int.from_bytes(k2, "big") >> cover and len(seen) != 1:
+                                wrong.append("%s: the scalar %02x ff.. (%d bytes, %d bits) has bits above the %d bits the generator tables cover, "
+                                             "but the fast path handled it (the top bits are dropped)" % (name, tb, slen, int.from_bytes(k2, "big").bit_length(), cover))
+                        del seen[:]
+                        rc, q = C.point(A)
+                        rc = m.call("ec_ws_scalar", [q, m.alloc_bytes(list(k), "k"), slen, seed])
+                        if int.from_bytes(k, "big") >> cover and len(seen) != 1:
+                            wrong.append("%s: the %d-byte scalar ff.. exceeds the %d bits of the generator tables but the generic ladder did not run" % (name, slen, cover))
                     if which != "G" and len(seen) != 1:
                         wrong.append("%s: the point %s is not the generator, but the generic ladder ran %d times (the precomputed "
                                      "generator tables were used for another point)" % (name, which, len(seen)))
